@@ -93,10 +93,11 @@ def get_widths2(seq: Iterable[object]) -> Dict[int, Tuple[float, Point]]:
     widths: Dict[int, Tuple[float, Point]] = {}
     r: List[float] = []
     for v in seq:
+        v = resolve1(v)
         if isinstance(v, list):
             if r:
                 char1 = r[-1]
-                for i, (w, vx, vy) in enumerate(choplist(3, v)):
+                for i, (w, vx, vy) in enumerate(choplist(3, resolve_all(v))):
                     widths[cast(int, char1) + i] = (w, (vx, vy))
                 r = []
         elif isinstance(v, (int, float)):  # == utils.isnumber(v)
